@@ -75,6 +75,9 @@ pub struct ObjSpec {
     pub tx: TxSpec,
     pub n_tx: usize,
     pub pset: Option<crate::psetgen::PsetSpec>,
+    /// Some(n): the object is (or is taken out of) the n-th vector of the repository's own corpus of that kind
+    #[serde(default)]
+    pub corpus: Option<u32>,
 }
 
 #[derive(Clone, Debug, Serialize, Deserialize)]
@@ -95,9 +98,123 @@ pub struct Case {
 
 pub trait ObjVisitor {
     fn visit<T: Encodable + Decodable + PartialEq + Debug>(self, v: T, ty: Ty);
+    /// a repository vector that the unchanged library decodes (and re-encodes byte for byte) is refused
+    fn rejected(self, _ty: Ty, _what: String)
+    where
+        Self: Sized,
+    {
+    }
+}
+
+/// Objects that are, or are cut out of, a real vector of the repository. Returns the visitor back when the spec
+/// does not ask for one (or the corpus has nothing of that kind).
+fn visit_corpus<V: ObjVisitor>(spec: &ObjSpec, vis: V) -> Option<V> {
+    use crate::corpus::{self, Kind};
+    let Some(n) = spec.corpus else { return Some(vis) };
+    let c = corpus::get();
+    let mut p = Prng::from_u64(spec.seed);
+    macro_rules! whole {
+        ($t:ty, $k:expr) => {{
+            let Some(i) = corpus::nth($k, n) else { return Some(vis) };
+            match encode::deserialize::<$t>(c.bytes(i)) {
+                Ok(v) => {
+                    if $k != Kind::Pset {
+                        let re = guard(|| encode::serialize(&v)).unwrap_or_default();
+                        if re != c.bytes(i) {
+                            vis.rejected(spec.ty, format!("repository vector {} (#{}, {} bytes) is accepted but re-encodes to different bytes ({} bytes)", c.source(i), i, c.bytes(i).len(), re.len()));
+                            return None;
+                        }
+                    }
+                    v
+                }
+                Err(e) => {
+                    vis.rejected(spec.ty, format!("repository vector {} (#{}, {} bytes), decoded by the unchanged library, is refused: {:?}", c.source(i), i, c.bytes(i).len(), e));
+                    return None;
+                }
+            }
+        }};
+    }
+    match spec.ty {
+        Ty::Transaction => {
+            let v = whole!(elements::Transaction, Kind::Tx);
+            vis.visit(v, spec.ty)
+        }
+        Ty::Block => {
+            let v = whole!(elements::Block, Kind::Block);
+            vis.visit(v, spec.ty)
+        }
+        Ty::Pset => {
+            let v = whole!(elements::pset::PartiallySignedTransaction, Kind::Pset);
+            vis.visit(v, spec.ty)
+        }
+        Ty::BlockHeader | Ty::Params => {
+            let b = whole!(elements::Block, Kind::Block);
+            if spec.ty == Ty::BlockHeader {
+                vis.visit(b.header, spec.ty)
+            } else {
+                match b.header.ext {
+                    elements::BlockExtData::Dynafed { current, proposed, .. } => vis.visit(if p.coin() { current } else { proposed }, spec.ty),
+                    _ => return Some(vis),
+                }
+            }
+        }
+        Ty::TxIn | Ty::TxInWitness | Ty::AssetIssuance | Ty::OutPoint | Ty::Sequence => {
+            let t = whole!(elements::Transaction, Kind::Tx);
+            if t.input.is_empty() {
+                return Some(vis);
+            }
+            let mut i = t.input[p.usize_below(t.input.len())].clone();
+            match spec.ty {
+                Ty::TxIn => {
+                    // a stand-alone TxIn does not carry its witness
+                    i.witness = Default::default();
+                    vis.visit(i, spec.ty)
+                }
+                Ty::TxInWitness => vis.visit(i.witness, spec.ty),
+                Ty::AssetIssuance => vis.visit(i.asset_issuance, spec.ty),
+                Ty::OutPoint => vis.visit(i.previous_output, spec.ty),
+                _ => vis.visit(i.sequence, spec.ty),
+            }
+        }
+        Ty::TxOut | Ty::TxOutWitness | Ty::Asset | Ty::Value | Ty::Nonce | Ty::Script => {
+            let t = whole!(elements::Transaction, Kind::Tx);
+            if t.output.is_empty() {
+                return Some(vis);
+            }
+            let mut o = t.output[p.usize_below(t.output.len())].clone();
+            match spec.ty {
+                Ty::TxOut => {
+                    o.witness = Default::default();
+                    vis.visit(o, spec.ty)
+                }
+                Ty::TxOutWitness => vis.visit(o.witness, spec.ty),
+                Ty::Asset => vis.visit(o.asset, spec.ty),
+                Ty::Value => vis.visit(o.value, spec.ty),
+                Ty::Nonce => vis.visit(o.nonce, spec.ty),
+                _ => vis.visit(o.script_pubkey, spec.ty),
+            }
+        }
+        Ty::LockTime => {
+            let t = whole!(elements::Transaction, Kind::Tx);
+            vis.visit(t.lock_time, spec.ty)
+        }
+        Ty::PsetKey | Ty::PsetPair | Ty::PsetPropKey => return Some(vis),
+    }
+    None
+}
+
+/// the transaction a spec stands for, when it is one (for segment maps)
+pub fn spec_tx(spec: &ObjSpec) -> elements::Transaction {
+    if let Some(n) = spec.corpus {
+        if let Some(Ok(t)) = crate::corpus::tx(n) {
+            return t;
+        }
+    }
+    gen::tx(&spec.tx)
 }
 
 pub fn build_and_visit<V: ObjVisitor>(spec: &ObjSpec, vis: V) {
+    let Some(vis) = visit_corpus(spec, vis) else { return };
     let mut p = Prng::from_u64(spec.seed);
     let s = &spec.tx;
     match spec.ty {
@@ -203,6 +320,20 @@ fn tx_byzantine(p: &mut Prng, t: &elements::Transaction, reference: &[u8], segs:
 }
 
 impl<'a> ObjVisitor for GenVisitor<'a> {
+    fn rejected(self, _ty: Ty, _what: String) {
+        // the case is still produced: executing it reports the refusal
+        *self.out = Some(Case {
+            obj: self.spec.clone(),
+            garbage: None,
+            write_plan: IoPlan::perfect(),
+            write_fault: None,
+            read_plan: IoPlan::perfect(),
+            read_fault: None,
+            sweep: false,
+            deliveries: vec![],
+            delivery_plan: IoPlan::perfect(),
+        });
+    }
     fn visit<T: Encodable + Decodable + PartialEq + Debug>(self, v: T, ty: Ty) {
         let p = self.p;
         let reference: Vec<u8> = guard(|| encode::serialize(&v)).unwrap_or_default();
@@ -211,7 +342,7 @@ impl<'a> ObjVisitor for GenVisitor<'a> {
         let segs: Option<Vec<Seg>> = match ty {
             Ty::Transaction => {
                 // the value is a Transaction: recover it through Any-free means (re-generate)
-                let t = gen::tx(&self.spec.tx);
+                let t = spec_tx(self.spec);
                 medium::tx_segments(&t, n)
             }
             Ty::Pset => Some(medium::pset_segments(&reference)),
@@ -231,7 +362,7 @@ impl<'a> ObjVisitor for GenVisitor<'a> {
             }
             if ty == Ty::Transaction {
                 if let Some(segs) = &segs {
-                    let t = gen::tx(&self.spec.tx);
+                    let t = spec_tx(self.spec);
                     for _ in 0..2 {
                         if let Some(d) = tx_byzantine(p, &t, &reference, segs) {
                             deliveries.push(d);
@@ -368,6 +499,10 @@ fn check_accepted<T: Encodable + Decodable + PartialEq + Debug>(ctx: &mut Ctx, t
 }
 
 impl<'a> ObjVisitor for ExecVisitor<'a> {
+    fn rejected(self, ty: Ty, what: String) {
+        self.ctx.sig("corpus-rejected");
+        self.ctx.violate(&format!("{}.rtt", ty.prop()), &format!("{:?}|corpus", ty), what);
+    }
     fn visit<T: Encodable + Decodable + PartialEq + Debug>(self, v: T, ty: Ty) {
         let case = self.case;
         let tyname = format!("{:?}", ty);
@@ -375,6 +510,10 @@ impl<'a> ObjVisitor for ExecVisitor<'a> {
         let prop = ty.prop();
         let ctx = self.ctx;
         ctx.sig(tyname);
+        if case.obj.corpus.is_some() {
+            ctx.sig("corpus");
+            ctx.probe("corpus_vector");
+        }
         // ---- reference: the library's own serialize() on a perfect medium
         let Some(reference) = ctx.call(&format!("serialize<{}>", tyname), 0, || encode::serialize(&v)) else {
             ctx.violate(&format!("{}.rtt", prop), &format!("{}|serialize-panic", tyname), format!("serialize of a generated canonical {} panicked", tyname));
@@ -553,7 +692,10 @@ fn draw_obj(p: &mut Prng, types: &[Ty]) -> ObjSpec {
         tx.max_blob = tx.max_blob.min(300);
     }
     let pset = if ty == Ty::Pset { Some(crate::psetgen::PsetSpec::draw(p)) } else { None };
-    ObjSpec { ty, seed: p.u64(), tx, n_tx, pset }
+    // one object in eight is (or is cut out of) one of the repository's own vectors
+    let n = p.u32();
+    let corpus = if p.chance(1, 8) { Some(n) } else { None };
+    ObjSpec { ty, seed: p.u64(), tx, n_tx, pset, corpus }
 }
 
 impl World for CodecWorld {
@@ -633,6 +775,9 @@ impl World for CodecWorld {
         }
         // object shrinking is only sound when no delivery refers to byte positions of the old encoding
         if case.deliveries.is_empty() && case.garbage.is_none() {
+            if case.obj.corpus.is_some() {
+                out.push(Case { obj: ObjSpec { corpus: None, ..case.obj.clone() }, write_fault: None, read_fault: None, ..case.clone() });
+            }
             for t in case.obj.tx.shrinks() {
                 out.push(Case { obj: ObjSpec { tx: t, ..case.obj.clone() }, write_fault: None, read_fault: None, ..case.clone() });
             }
